@@ -21,25 +21,6 @@ inductive GapPos : St → List Level → Prop where
   | finishInArray (psv xs pnm rest) : GapPos .finish (⟨.arrayAdd, psv, .arr xs, pnm⟩ :: rest)
   | finishInObject (psv kvs k rest) : GapPos .finish (⟨.objectValueAdd, psv, .obj kvs, some k⟩ :: rest)
 
-def Act.isErr : Act → Bool
-  | .err _ _ _ => true
-  | _ => false
-
-theorem run_err_of_isErr (lc : Libc) (t : Tok) (l : Loc) (hv : NoVal t) (b : UInt8)
-    (h : (feed lc t l b).isErr = true) (c : UInt8) (off : Nat) (rs : Bytes) : ErrStop (run lc t l c off (b :: rs)) := by
-  have hpk : peek t l b = some l := by simp [peek, hv.validate]
-  cases hf : feed lc t l b with
-  | err pe t' l' => exact ⟨pe, by simp only [run, hpk, hf]⟩
-  | consume _ _ => rw [hf] at h; cases h
-  | redo _ _ => rw [hf] at h; cases h
-  | done _ _ => rw [hf] at h; cases h
-  | fault _ => rw [hf] at h; cases h
-
-theorem run_err_of_feed (lc : Libc) (t : Tok) (l : Loc) (hv : NoVal t) (b : UInt8) (pe : PErr) (t' : Tok) (l' : Loc)
-    (h : feed lc t l b = .err pe t' l') (c : UInt8) (off : Nat) (rs : Bytes) : ErrStop (run lc t l c off (b :: rs)) := by
-  have hpk : peek t l b = some l := by simp [peek, hv.validate]
-  exact ⟨pe, by simp only [run, hpk, h]⟩
-
 /-- strict mode: '/' at a gap position is a syntax error -/
 theorem slash_err (lc : Libc) (t : Tok) (l : Loc) (hv : NoVal t) (hst : t.strict = true)
     (sv : St) (cur : JVal) (nm : Option Bytes) (rest : List Level) (hs : t.stack = ⟨.eatws, sv, cur, nm⟩ :: rest)
